@@ -211,7 +211,11 @@ var lits = []string{"", "a", "b", "1", "0", "-1", "1.5", "true", "T", "0x1", "1_
 	// beyond the float32 range / beside a float32 rounding midpoint (the literal must be read in the width of the value)
 	"1e39", "1.00000005960464477539062500000000000001",
 	// not exact in float32: a reading made for one float width must not be reused for the other
-	"0.1"}
+	"0.1",
+	// legacy octal spellings: 010 is 8 (and 08 is not a number) wherever an integer literal is read
+	"010", "08",
+	// white space at the edges of a quoted literal is part of the literal
+	" a ", " 1", " "}
 
 var selsQuick = [][]string{{"a"}, {"b"}, {"a", "a"}, {"a", "b"}, {"a", "c"}, {"a", "0"}, {"a", "1"}, {"a", "2"}, {"a", "true"}, {"a", "A"}, {"a", "H"}, {"a", "u"},
 	{"a", "a", "a"}, {"a", "0", "a"}, {"a", "a", "0"}, {"a", "0", "0"}, {"a", "a", "c"}, {"a", ""}, {"a", "x"}, {"a", "01"}}
